@@ -440,6 +440,7 @@ def case_single(ctx, rng, idx):
                    cls="partial-file-content",
                    detail={**tag, "ids": list(ids), "want": want[0]["ids"],
                            "current_rep": part.current_rep})
+    ctx.sample("single", tag)
     ctx.sig("single", len(s.unpacked), s.rep_max, s.pred_kind, s.skip_kind)
     # another index on the same runner, after the user changed the values
     if len(variations) < 2 or idx % 2:
@@ -566,6 +567,7 @@ def case_files(ctx, rng, idx):
                 ctx.ev("stored-results", not left, cls="files:partial-files-left-behind",
                        detail=d(files=left))
                 disk = {}
+        ctx.sample("files", {**tag, "ops": list(ops)})
         ctx.sig("files", delete, single, len(disk) == nvar, s.rep_max >= 500, step)
     shutil.rmtree(wd, ignore_errors=True)
 
@@ -679,6 +681,7 @@ def case_app(ctx, rng, idx):
         if okc:
             ctx.ev("in-situ-history", list(vals) == [want[4]], cls="lookup",
                    detail={**tag, "variation": v, "got": vals, "want": want[4]})
+    ctx.sample("app", {**tag, "events_head": events[:8]})
     ctx.sig("app", clsname, len(snr), r.rep_max, tuple(min(len(byvar.get(v, [])) // 2, 3)
                                                       for v in range(len(snr))))
 
